@@ -103,8 +103,8 @@ def get_alternative_formula(relation: Relation) -> str:
     formula = []
     parent = relation.parent.name
     children = {child.name for child in relation.children}
-    for child in children:
-        children_negatives = children - {child}
+    for child in sorted(children):
+        children_negatives = sorted(children - {child})
         children_neg_str = [f"{PLWriter.LogicConnective.NOT} " + ch for ch in children_negatives]
         formula.append(f'{child} {PLWriter.LogicConnective.EQUIVALENCE} '
                        f'({f" {PLWriter.LogicConnective.AND} ".join(children_neg_str)} '
@@ -116,14 +116,14 @@ def get_mutex_formula(relation: Relation) -> str:
     formula = []
     parent = relation.parent.name
     children = {child.name for child in relation.children}
-    for child in children:
-        children_negatives = children - {child}
+    for child in sorted(children):
+        children_negatives = sorted(children - {child})
         children_neg_str = [f"{PLWriter.LogicConnective.NOT} " + cn for cn in children_negatives]
         formula.append(f'{child} {PLWriter.LogicConnective.EQUIVALENCE} '
                        f'({f" {PLWriter.LogicConnective.AND} ".join(children_neg_str)} '
                        f'{PLWriter.LogicConnective.AND} {parent})')
     formula_str = f" {PLWriter.LogicConnective.AND} ".join(f'({f})' for f in formula)
-    or_children = f" {PLWriter.LogicConnective.OR} ".join(child for child in children)
+    or_children = f" {PLWriter.LogicConnective.OR} ".join(child for child in sorted(children))
     return f'({parent} {PLWriter.LogicConnective.EQUIVALENCE} ' \
            f'{PLWriter.LogicConnective.NOT} ({or_children})) ' \
            f'{PLWriter.LogicConnective.OR} ({formula_str})'
@@ -134,9 +134,9 @@ def get_cardinality_formula(relation: Relation) -> str:
     children = {child.name for child in relation.children}
     or_ctc = []
     for k in range(relation.card_min, relation.card_max + 1):
-        combi_k = list(itertools.combinations(children, k))
+        combi_k = list(itertools.combinations(sorted(children), k))
         for positives in combi_k:
-            negatives = children - set(positives)
+            negatives = sorted(children - set(positives))
             negatives_str = [f"{PLWriter.LogicConnective.NOT} " + f for f in negatives]
             positives_and_ctc = f'{f" {PLWriter.LogicConnective.AND} ".join(positives)}'
             negatives_and_ctc = f'{f" {PLWriter.LogicConnective.AND} ".join(negatives_str)}'
